@@ -1,7 +1,7 @@
 """C13 -- temperature schedules are followed faithfully."""
 from ..core import main
 from ..tlc import run_tlc, MachineryError
-from ..kwn_checks import judge, canary
+from ..kwn_checks import judge, canary, judge_pairs
 from .. import traces as T
 
 
@@ -36,6 +36,8 @@ def run(ctx, replay=None):
     canary(ctx, corrupt, "C13:T=schedule(t)")
     refresh_rule_mc(ctx)
     judge(ctx, ["C13:"])
+    from .. import kwn_pairs as P
+    judge_pairs(ctx, [(a, b, None, 0.0, [], label) for (a, b, label) in P.temperature_pairs()], "tempspec")
 
 
 if __name__ == "__main__":
